@@ -53,7 +53,7 @@ impl<'a> Iterator for Tokenizer<'a> {
                             break;
                         }
                     }
-                    Some(Token::Num(Decimal::from_str(&number).unwrap()))
+                    Some(Token::Num(Decimal::from_str(&number).ok()?))
                 } else {
                     None
                 }
@@ -63,70 +63,70 @@ impl<'a> Iterator for Tokenizer<'a> {
                     &current_char?,
                     &mut self.expr,
                 ))
-                .unwrap(),
+                .ok()?,
             )),
             Some('¹') => Some(Token::Superscript(
                 Decimal::from_str(&deserialize_superscript_number(
                     &current_char?,
                     &mut self.expr,
                 ))
-                .unwrap(),
+                .ok()?,
             )),
             Some('²') => Some(Token::Superscript(
                 Decimal::from_str(&deserialize_superscript_number(
                     &current_char?,
                     &mut self.expr,
                 ))
-                .unwrap(),
+                .ok()?,
             )),
             Some('³') => Some(Token::Superscript(
                 Decimal::from_str(&deserialize_superscript_number(
                     &current_char?,
                     &mut self.expr,
                 ))
-                .unwrap(),
+                .ok()?,
             )),
             Some('⁴') => Some(Token::Superscript(
                 Decimal::from_str(&deserialize_superscript_number(
                     &current_char?,
                     &mut self.expr,
                 ))
-                .unwrap(),
+                .ok()?,
             )),
             Some('⁵') => Some(Token::Superscript(
                 Decimal::from_str(&deserialize_superscript_number(
                     &current_char?,
                     &mut self.expr,
                 ))
-                .unwrap(),
+                .ok()?,
             )),
             Some('⁶') => Some(Token::Superscript(
                 Decimal::from_str(&deserialize_superscript_number(
                     &current_char?,
                     &mut self.expr,
                 ))
-                .unwrap(),
+                .ok()?,
             )),
             Some('⁷') => Some(Token::Superscript(
                 Decimal::from_str(&deserialize_superscript_number(
                     &current_char?,
                     &mut self.expr,
                 ))
-                .unwrap(),
+                .ok()?,
             )),
             Some('⁸') => Some(Token::Superscript(
                 Decimal::from_str(&deserialize_superscript_number(
                     &current_char?,
                     &mut self.expr,
                 ))
-                .unwrap(),
+                .ok()?,
             )),
             Some('⁹') => Some(Token::Superscript(
                 Decimal::from_str(&deserialize_superscript_number(
                     &current_char?,
                     &mut self.expr,
                 ))
-                .unwrap(),
+                .ok()?,
             )),
             Some('0'..='9') => {
                 let mut number = current_char?.to_string();
@@ -137,7 +137,7 @@ impl<'a> Iterator for Tokenizer<'a> {
                         break;
                     }
                 }
-                Some(Token::Num(Decimal::from_str(&number).unwrap()))
+                Some(Token::Num(Decimal::from_str(&number).ok()?))
             }
             Some('a') => match self.expr.clone().take(3).collect::<String>().as_str() {
                 "bs(" => {
